@@ -17,6 +17,14 @@ macro_rules! mal_harness {
         });
     };
 }
+macro_rules! mal_harness_at {
+    ($name:ident, $t:ty, $n:expr, $unwind:expr, $lens:expr) => {
+        kproof!($name, $unwind, {
+            malformed_check_at::<$t, $n>(&$lens);
+            kani::cover!(true, "reached end");
+        });
+    };
+}
 pub mod q {
     use super::*;
     use crate::dtypes::*;
@@ -43,4 +51,26 @@ pub mod q {
     mal_harness!(m_ipaddr, std::net::IpAddr, 18, 4, u64::MAX);
     mal_harness!(m_duration, std::time::Duration, 16, 4, u64::MAX);
     mal_harness!(m_systemtime, std::time::SystemTime, 16, 4, u64::MAX);
+}
+pub mod t {
+    use super::*;
+    use crate::dtypes::*;
+    mal_harness!(m_socketaddr, std::net::SocketAddr, 28, 4, u64::MAX);
+    mal_harness_at!(m_tup_u8_string, (u8, String), 12, 6, [(1, 3)]);
+    mal_harness_at!(m_opt_string, Option<String>, 12, 6, [(1, 3)]);
+    mal_harness!(m_arraystring, arrayvec::ArrayString<3>, 12, 6, u64::MAX);
+    mal_harness!(m_boxslice_bulk, Box<[u16]>, 14, 4, u64::MAX);
+    mal_harness!(m_arcslice_bulk, std::sync::Arc<[u32]>, 16, 4, u64::MAX);
+    mal_harness!(m_vecdeque, std::collections::VecDeque<u8>, 11, 6, 2);
+    mal_harness!(m_arr_u16, [u16; 3], 8, 4, u64::MAX);
+    mal_harness!(m_enum_u32_data, EqDataU32, 10, 4, u64::MAX);
+    mal_harness!(m_enum_u32, EqU32, 6, 4, u64::MAX);
+    mal_harness!(m_struct_nested, SqNestedPad, 12, 4, u64::MAX);
+    mal_harness_at!(m_struct_mixed, SqMixed, 14, 6, [(1, 3)]);
+    mal_harness_at!(m_vec_string_loop, Vec<String>, 20, 6, [(0, 1), (8, 3)]);
+    mal_harness!(m_u128, u128, 18, 4, u64::MAX);
+    mal_harness!(m_f64, f64, 9, 4, u64::MAX);
+    mal_harness!(m_i8, i8, 2, 4, u64::MAX);
+    mal_harness!(m_vec_u64_bulk, Vec<u64>, 24, 4, u64::MAX);
+    mal_harness!(m_vec_u8_bulk, Vec<u8>, 11, 4, u64::MAX);
 }
